@@ -323,6 +323,12 @@ func runC03(ctx *harness.Ctx) {
 		}
 		c03All(ctx, t, "valid", src)
 	})
+	// inputs with many lines (64, 100, 128, 256, 1000, 1024, 4096 ... lines), with an error at offset 0, at a line start or at the end
+	ctx.Rapid("many-lines", ctx.Pick(100, 1500), func(t *rapid.T) {
+		src, where := drawManyLines(t)
+		ctx.Class("many-lines:error-" + where)
+		c03All(ctx, t, "many-lines", src)
+	})
 	// (d) nesting probes
 	ctx.Rapid("nesting", ctx.Pick(60, 400), func(t *rapid.T) {
 		src := mutate.Nesting(t, ctx.Pick(600, 2000))
